@@ -167,9 +167,22 @@ def undefined_uses(p, fn):
     def may_raise(node):
         return last_raisers.get(id(node), [])
     try:
-        paths = Cfg(may_raise, p.issub, unroll=1).seq(fn.body)
+        paths = Cfg(may_raise, p.issub, unroll=1, bonus=False).seq(fn.body)   # binding is decided by one iteration: deeper unrolling adds nothing
     except RuntimeError:
         return found
+    lcache, scache = {}, {}
+
+    def loads(node):
+        k = id(node)
+        if k not in lcache:
+            lcache[k] = _loads(node)
+        return lcache[k]
+
+    def stores(node):
+        k = id(node)
+        if k not in scache:
+            scache[k] = _stores(node)
+        return scache[k]
     for ev, out in paths:
         if any(e[0] == "loopexit" and e[2] == 0 and isinstance(e[1], (ast.For, ast.AsyncFor)) for e in ev):
             continue
@@ -192,11 +205,11 @@ def undefined_uses(p, fn):
             node = e[1] if k in ("stmt", "branch", "enter") else e[1].iter if k in ("iter", "aiter") else None
             if node is None or isinstance(node, (ast.For, ast.AsyncFor, ast.While, ast.If, ast.Try, ast.With, ast.AsyncWith)):
                 continue
-            for x in _loads(node):
+            for x in loads(node):
                 if x.id in local and x.id not in bound and x.id not in seen:
                     seen.add(x.id)
                     found.append((x, src(p.enclosing_stmt(x))[:60] if hasattr(p, "enclosing_stmt") else x.id))
-            bound |= _stores(node)
+            bound |= stores(node)
             if k == "enter":
                 item = p.parent.get(node)
                 if isinstance(item, ast.withitem) and item.optional_vars is not None:
